@@ -2,9 +2,9 @@
 //! (`eval_flatex_cloning`); a moved-out placeholder never reaches an operator; a variable that
 //! occurs exactly once is moved, not cloned.
 //!
-//! Bounded: every *shape* of N nodes over {literal, variable 0, variable 1} (3^N shapes) and every
-//! application order of the N-1 operators is enumerated concretely; operand values, and whether a
-//! node carries a unary function, are symbolic.  N = 3 (quick), N = 4 (thorough).
+//! Bounded: N nodes, each a symbolic choice of {literal, variable 0, variable 1} with a symbolic
+//! optional unary function, symbolic application order of the N-1 operators, symbolic values.
+//! N = 2 (quick), N = 3 (thorough: measured 800 s / 15 GB at design time).
 use crate::src::Src;
 use exmex::verif_hooks::*;
 use exmex::BinOp;
@@ -31,33 +31,35 @@ fn un(a: M) -> M {
     M { v: a.v.wrapping_mul(3).wrapping_add(1), id: 2, moved: false }
 }
 
-fn run_shape<S: Src, const N: usize>(s: &mut S, shape: [u8; N], order: &[usize]) {
-    // shape[i]: 0 = literal, 1 = variable 0, 2 = variable 1
+fn run<S: Src, const N: usize, const K: usize>(s: &mut S) {
+    // K == N - 1.  shape[i]: 0 = literal, 1 = variable 0, 2 = variable 1 (symbolic)
     let x0 = s.u32(); let x1 = s.u32();
-    let mut lit = [0u32; N]; let mut has_un = [false; N];
-    for i in 0..N { lit[i] = s.u32(); has_un[i] = s.bool(); }
-    let nodes: Vec<FlatNode<M>> = (0..N).map(|i| FlatNode {
+    let mut shape = [0u8; N]; let mut lit = [0u32; N]; let mut has_un = [false; N];
+    for i in 0..N { shape[i] = s.choice(3); lit[i] = s.u32(); has_un[i] = s.bool(); }
+    let mut order = [0usize; K];
+    for i in 0..K { order[i] = s.usize(); s.assume(order[i] < K); for j in 0..i { s.assume(order[i] != order[j]); } }
+    let nodes: [FlatNode<M>; N] = core::array::from_fn(|i| FlatNode {
         kind: match shape[i] { 0 => FlatNodeKind::Num(M { v: lit[i], id: 2, moved: false }), k => FlatNodeKind::Var(k as usize - 1) },
         unary_op: if has_un[i] { UnaryOp::from_vec(smallvec::smallvec![UnaryFuncWithIdx { f: un as fn(M) -> M, idx: 0 }]) } else { UnaryOp::new() },
-    }).collect();
-    let ops: Vec<FlatOp<M>> = (0..N - 1).map(|i| FlatOp { unary_op: UnaryOp::new(), bin_op: BinOpWithIdx { op: BinOp { apply: op as fn(M, M) -> M, prio: 0, is_commutative: false }, idx: i } }).collect();
+    });
+    let ops: [FlatOp<M>; K] = core::array::from_fn(|i| FlatOp { unary_op: UnaryOp::new(), bin_op: BinOpWithIdx { op: BinOp { apply: op as fn(M, M) -> M, prio: 0, is_commutative: false }, idx: i } });
     // reference: plain reduction over value arrays in the given order (nearest live neighbours)
     let mut vals = [0u32; N]; let mut live = [true; N];
     for i in 0..N {
         let base = match shape[i] { 0 => lit[i], 1 => x0, _ => x1 };
         vals[i] = if has_un[i] { base.wrapping_mul(3).wrapping_add(1) } else { base };
     }
-    for &k in order {
+    for &k in order.iter() {
         let mut l = k; while !live[l] { l -= 1; }
         let mut r = k + 1; while !live[r] { r += 1; }
         vals[l] = comb(vals[l], vals[r]); live[r] = false;
     }
     let expect = vals[0];
     let vars = [M { v: x0, id: 0, moved: false }, M { v: x1, id: 1, moved: false }];
-    let r_clone = eval_flatex_cloning(&vars, &nodes, &ops, order);
+    let r_clone = eval_flatex_cloning(&vars, &nodes, &ops, &order);
     unsafe { CLONES = [0; 3]; }
     let mut owned = [M { v: x0, id: 0, moved: false }, M { v: x1, id: 1, moved: false }];
-    let r_cons = eval_flatex_consuming_vars(&mut owned, &nodes, &ops, order);
+    let r_cons = eval_flatex_consuming_vars(&mut owned, &nodes, &ops, &order);
     match (&r_clone, &r_cons) {
         (Ok(a), Ok(b2)) => {
             assert!(a.v == expect && !a.moved, "C15 borrowing evaluation equals the reference reduction");
@@ -66,27 +68,14 @@ fn run_shape<S: Src, const N: usize>(s: &mut S, shape: [u8; N], order: &[usize])
         _ => assert!(false, "C15 both evaluations return Ok"),
     }
     for v in 0..2usize {
-        let occ = shape.iter().filter(|k| **k as usize == v + 1).count();
+        let mut occ = 0; for i in 0..N { if shape[i] as usize == v + 1 { occ += 1; } }
         if occ == 1 { assert!(unsafe { CLONES[v] } == 0, "C15 a variable that occurs exactly once is moved, not cloned"); }
+        cover!(s, occ >= 2, "a variable that occurs more than once");
     }
     core::mem::forget((r_clone, r_cons, nodes, ops));
 }
 
-fn all_shapes_3<S: Src>(s: &mut S) {
-    for a in 0..3u8 { for b2 in 0..3u8 { for c in 0..3u8 {
-        run_shape::<S, 3>(s, [a, b2, c], &[0, 1]);
-        run_shape::<S, 3>(s, [a, b2, c], &[1, 0]);
-    } } }
-}
-const ORDERS_3: [[usize; 3]; 6] = [[0, 1, 2], [0, 2, 1], [1, 0, 2], [1, 2, 0], [2, 0, 1], [2, 1, 0]];
-fn shapes_4<S: Src>(s: &mut S, a: u8) {
-    for b2 in 0..3u8 { for c in 0..3u8 { for d in 0..3u8 {
-        for o in 0..6 { run_shape::<S, 4>(s, [a, b2, c, d], &ORDERS_3[o]); }
-    } } }
-}
-harness!(consuming_vs_cloning_3, unwind = 8, |s| { all_shapes_3(s) });
-harness!(consuming_vs_cloning_4_a0, unwind = 8, |s| { shapes_4(s, 0) });
-harness!(consuming_vs_cloning_4_a1, unwind = 8, |s| { shapes_4(s, 1) });
-harness!(consuming_vs_cloning_4_a2, unwind = 8, |s| { shapes_4(s, 2) });
+harness!(consuming_vs_cloning_2, unwind = 6, |s| { run::<S, 2, 1>(s) });
+harness!(consuming_vs_cloning_3, unwind = 7, |s| { run::<S, 3, 2>(s) });
 
-registry!("c15", consuming_vs_cloning_3, consuming_vs_cloning_4_a0, consuming_vs_cloning_4_a1, consuming_vs_cloning_4_a2);
+registry!("c15", consuming_vs_cloning_2, consuming_vs_cloning_3);
